@@ -129,8 +129,14 @@ class FrozenCircuit(AbstractCircuit, protocols.SerializableByKey):
         return super()._has_unitary_()
 
     @_compat.cached_method
-    def _unitary_(self) -> np.ndarray | NotImplementedType:
+    def _cached_unitary(self) -> np.ndarray | NotImplementedType:
         return super()._unitary_()
+
+    def _unitary_(self) -> np.ndarray | NotImplementedType:
+        # The cached array is shared by all calls: hand out copies so that a caller
+        # modifying its result does not change what later calls return.
+        unitary = self._cached_unitary()
+        return unitary if unitary is NotImplemented else unitary.copy()
 
     @_compat.cached_method
     def _is_measurement_(self) -> bool:
